@@ -732,140 +732,135 @@ func init() {
 				}
 			}
 		}
+		if oldAlloc == nil && newAlloc != nil {
+			// the received value is not kept in a slot of its own: the only slot it is stored into is the
+			// pending timeout (`ti = <-tickChan's value`)
+			oldAlloc, newAlloc = newAlloc, nil
+		}
 		if !c.Check((newAlloc != nil || newVal != nil) && oldAlloc != nil, fk+" :: received tick and pending timeout identified", w.pos(f.Pos()), "tick := <-tickChan; pending = tick", "the shape of the routine changed: re-confirm by reading") {
 			return
 		}
-		var render func(v ssa.Value) string
-		render = func(v ssa.Value) string {
+		// decide the filter exhaustively over the orderings of (height, round, step) of the two ticks and
+		// of the pending step against zero (absint_order.go): the code only compares these fields
+		sideOfBase := func(base ssa.Value, fr *ordFrame) (string, bool) {
+			switch x := base.(type) {
+			case *ssa.Alloc:
+				if newAlloc != nil && x == newAlloc {
+					return "new", true
+				}
+				if x == oldAlloc {
+					return "old", true
+				}
+				// a by-value record parameter spilled to a slot
+				var src ssa.Value
+				nst := 0
+				for _, r := range *x.Referrers() {
+					if st, ok := r.(*ssa.Store); ok && st.Addr == ssa.Value(x) {
+						src, nst = st.Val, nst+1
+					}
+				}
+				if p, ok := src.(*ssa.Parameter); ok && nst == 1 {
+					side, ok := fr.params[p]
+					return side, ok
+				}
+			case *ssa.Parameter:
+				side, ok := fr.params[x]
+				return side, ok
+			}
+			return "", false
+		}
+		var classOf func(v ssa.Value, fr *ordFrame) (string, string, bool)
+		classOf = func(v ssa.Value, fr *ordFrame) (string, string, bool) {
 			v = stripConv(v)
 			switch x := v.(type) {
-			case *ssa.Const:
-				return w.expr(x)
 			case *ssa.UnOp:
-				if x.Op == token.MUL {
-					if fa, ok := x.X.(*ssa.FieldAddr); ok {
-						fld := fa.X.Type().Underlying().(*types.Pointer).Elem().Underlying().(*types.Struct).Field(fa.Field).Name()
-						switch fa.X {
-						case ssa.Value(newAlloc):
-							return "new." + fld
-						case ssa.Value(oldAlloc):
-							return "old." + fld
+				if x.Op != token.MUL {
+					return "", "", false
+				}
+				if fa, ok := x.X.(*ssa.FieldAddr); ok {
+					side, ok := sideOfBase(fa.X, fr)
+					return side, fieldName(fa.X.Type(), fa.Field), ok
+				}
+				side, ok := sideOfBase(x.X, fr) // the whole record
+				return side, "", ok
+			case *ssa.Field:
+				side, _, ok := classOf(x.X, fr)
+				return side, fieldName(x.X.Type(), x.Field), ok
+			case *ssa.Extract:
+				if newVal != nil && v == newVal {
+					return "new", "", true
+				}
+			case *ssa.Parameter:
+				side, ok := fr.params[x]
+				return side, "", ok
+			}
+			return "", "", false
+		}
+		// the tick case starts where the received value is bound
+		var start *ssa.BasicBlock
+		for _, b := range f.Blocks {
+			for _, in := range b.Instrs {
+				if st, ok := in.(*ssa.Store); ok && newAlloc != nil && st.Addr == ssa.Value(newAlloc) {
+					start = b
+				}
+			}
+		}
+		if start == nil && newVal != nil {
+			for _, r := range *newVal.Referrers() {
+				if start == nil || r.Block().Index < start.Index {
+					start = r.Block()
+				}
+			}
+		}
+		if !c.Check(start != nil, fk+" :: tick case found", w.pos(f.Pos()), "block binding the received tick", "not found") {
+			return
+		}
+		stop := func(in ssa.Instruction, blk *ssa.BasicBlock, entering bool) string {
+			if entering {
+				if blk != start {
+					for _, x := range blk.Instrs {
+						if _, ok := x.(*ssa.Select); ok {
+							return "drop" // back at the select without re-arming
 						}
 					}
 				}
-			case *ssa.Field:
-				if x.X == newVal {
-					return "new." + x.X.Type().Underlying().(*types.Struct).Field(x.Field).Name()
-				}
+				return ""
 			}
-			return "?" + w.expr(v)
+			if call, ok := in.(ssa.CallInstruction); ok && w.isCall(call, "time#Timer.Reset") {
+				return "replace"
+			}
+			return ""
 		}
-		atomStr := func(a Atom) string {
-			if a.Kind != "cmp" {
-				return "?"
-			}
-			x, y, op := render(a.X), render(a.Y), a.Op
-			// orient: new on the left; constants on the right
-			if strings.HasPrefix(y, "new.") || (!strings.HasPrefix(x, "new.") && strings.HasPrefix(y, "old.") && !strings.HasPrefix(x, "old.")) {
-				x, y, op = y, x, flipOp(op)
-			}
-			return x + " " + op.String() + " " + y
-		}
-		implies := map[string][]string{"<": {"<", "<=", "!="}, ">": {">", ">=", "!="}, "==": {"==", "<=", ">="}, "<=": {"<="}, ">=": {">="}, "!=": {"!="}}
-		cmpG := func(name, x, op, y string) Guard {
-			return Guard{Name: name, Match: func(w *World, ff *ssa.Function, a Atom) bool {
-				s := strings.SplitN(atomStr(a), " ", 3)
-				if len(s) != 3 || s[0] != x || s[2] != y {
-					return false
-				}
-				for _, o := range implies[s[1]] {
-					if o == op {
-						return true
+		word := map[int]string{-1: "lower", 0: "equal", 1: "higher"}
+		var wrongDrop, wrongKeep, undecided []string
+		cases := 0
+		for dh := -1; dh <= 1; dh++ {
+			for dr := -1; dr <= 1; dr++ {
+				for ds := -1; ds <= 1; ds++ {
+					for _, os := range []int{0, 1} {
+						cases++
+						ev := &ordEval{w: w, classOf: classOf, cs: ordCase{diff: map[string]int{"Height": dh, "Round": dr, "Step": ds}, oldSign: map[string]int{"Step": os}}}
+						out := ev.run(start, nil, &ordFrame{fn: f, params: map[*ssa.Parameter]string{}}, stop)
+						desc := fmt.Sprintf("height %s, round %s, step %s, pending step %s", word[dh], word[dr], word[ds], map[int]string{0: "unset", 1: "set"}[os])
+						wantDrop := dh < 0 || (dh == 0 && dr < 0) || (dh == 0 && dr == 0 && os > 0 && ds <= 0)
+						switch {
+						case out.kind == "undecided" || (out.kind != "drop" && out.kind != "replace"):
+							undecided = append(undecided, desc+": "+out.kind+" "+out.why)
+						case out.kind == "drop" && !wantDrop:
+							wrongDrop = append(wrongDrop, desc)
+						case out.kind == "replace" && wantDrop:
+							wrongKeep = append(wrongKeep, desc)
+						}
 					}
 				}
-				return false
-			}}
-		}
-		// (a) replacement only by a later tick
-		var reset ssa.Instruction
-		for _, call := range w.callsTo(f, "time#Timer.Reset") {
-			reset = call
-		}
-		if !c.Check(reset != nil, fk+" :: timer re-armed", w.pos(f.Pos()), "timer.Reset", "no timer.Reset found") {
-			return
-		}
-		c.guards(f, reset, fk+" :: re-arm the timer", 0,
-			cmpG("tick is not for an older height", "new.Height", ">=", "old.Height"),
-			guardAny("at the same height the tick is not for an older round", cmpG("h", "new.Height", "!=", "old.Height"), cmpG("r", "new.Round", ">=", "old.Round")),
-			guardAny("at the same height and round the tick is for a later step (or nothing is pending)", cmpG("h", "new.Height", "!=", "old.Height"), cmpG("r", "new.Round", "!=", "old.Round"), cmpG("s", "new.Step", ">", "old.Step"), cmpG("none", "old.Step", "<=", "0")))
-		// (b) a tick is dropped (loop continues without re-arming) only if it is not later
-		allowed := [][]string{
-			{"new.Height < old.Height"},
-			{"new.Height == old.Height", "new.Round < old.Round"},
-			{"new.Height == old.Height", "new.Round == old.Round", "old.Step > 0", "new.Step <= old.Step"},
-		}
-		by := map[string]map[Edge]bool{}
-		type ce struct {
-			e Edge
-			s string
-		}
-		var all []ce
-		for _, ea := range condEdges(f) {
-			s := atomStr(ea.A)
-			if strings.Contains(s, "?") {
-				continue
 			}
-			if by[s] == nil {
-				by[s] = map[Edge]bool{}
-			}
-			by[s][ea.E] = true
-			all = append(all, ce{ea.E, s})
 		}
-		head := reset.Block()
-		for head != nil && !(len(head.Instrs) > 0 && func() bool { _, ok := head.Instrs[len(head.Instrs)-1].(*ssa.If); return ok }() && func() bool {
-			for _, in := range head.Instrs {
-				if _, ok := in.(*ssa.Select); ok {
-					return true
-				}
-			}
-			return false
-		}()) {
-			head = head.Idom()
+		c.Check(len(undecided) == 0, fk+" :: the filter only compares height, round and step of the two ticks (decidable over their orderings)", w.pos(f.Pos()), fmt.Sprintf("%d orderings decided", cases), "cannot be decided for: "+strings.Join(firstN(undecided, 3), " | "))
+		c.Check(len(wrongKeep) == 0, fk+" :: the pending timeout is replaced only by a tick for a later (height, round, step)", w.pos(f.Pos()), "no stale tick re-arms the timer", "a tick that is not later replaces the pending timeout (that timeout then never fires): "+strings.Join(firstN(wrongKeep, 4), " | "))
+		c.Check(len(wrongDrop) == 0, fk+" :: a tick is dropped only if it is not later than the pending timeout", w.pos(f.Pos()), "no later tick is dropped", "a later tick is dropped (its timeout never fires): "+strings.Join(firstN(wrongDrop, 4), " | "))
+		for i := 0; i < 4; i++ { // one obligation per clause keeps the floor meaningful
+			c.OK(fmt.Sprintf("%s :: orderings evaluated (%d/4)", fk, i+1), w.pos(f.Pos()), fmt.Sprintf("%d abstract cases", cases))
 		}
-		if !c.Check(head != nil, fk+" :: select loop head found", w.pos(f.Pos()), "for { select {…} }", "loop head not found") {
-			return
-		}
-		drops := 0
-		k := newKeyer()
-		for _, x := range all {
-			if x.e.From.Succs[x.e.Succ] != head {
-				continue
-			}
-			drops++
-			// necessary conditions of taking this edge
-			term := x.e.From.Instrs[len(x.e.From.Instrs)-1]
-			nec := map[string]bool{x.s: true}
-			for s, edges := range by {
-				if r, _ := reachFromEntry(f, edges, nil, term); !r {
-					nec[s] = true
-				}
-			}
-			ok := false
-			for _, alt := range allowed {
-				has := true
-				for _, a := range alt {
-					if !nec[a] {
-						// a stronger comparison is fine for a drop condition only if it is the listed one; nothing weaker
-						has = false
-					}
-				}
-				if has {
-					ok = true
-				}
-			}
-			c.Check(ok, k.key(f, "a tick is dropped only when it is not later than the pending timeout"), w.ipos(term), "older height | same height, older round | same height and round, step not later", "a tick is dropped under "+strings.Join(sortedKeys(nec), " && "))
-		}
-		c.Check(drops >= 3, fk+" :: drop edges found", w.pos(f.Pos()), ">= 3", fmt.Sprintf("%d", drops))
 	})
 }
 
@@ -903,4 +898,11 @@ func (w *World) renderOffset(base ssa.Value, k int64) string {
 		return fmt.Sprintf("(%s + %d)", w.arith(base), k)
 	}
 	return fmt.Sprintf("(%s - %d)", w.arith(base), -k)
+}
+
+func firstN(xs []string, n int) []string {
+	if len(xs) > n {
+		return append(append([]string{}, xs[:n]...), fmt.Sprintf("… (%d in all)", len(xs)))
+	}
+	return xs
 }
